@@ -12,16 +12,22 @@ Definition fl0 : fl := mkFl false false false.
 Definition fl_or (a b : fl) : fl := mkFl (utb a || utb b) (utc a || utc b) (tat a || tat b).
 Definition fl_eqb (a b : fl) : bool := Bool.eqb (utb a) (utb b) && Bool.eqb (utc a) (utc b) && Bool.eqb (tat a) (tat b).
 
-Record glyph := mkG { cl : Z; gf : fl; rest : Z; cp : Z; gid : Z }.
+(* up = GlyphInfo.unicode (general category, ignorable / hidden / continuation bits, modified combining class), gp = glyphProps;
+   the buffer core only copies them (they are read by sort's comparison and by the grapheme grouping of reverseGroups) *)
+Record glyph := mkGX { cl : Z; gf : fl; rest : Z; cp : Z; gid : Z; up : Z; gp : Z }.
+Definition mkG (c : Z) (f : fl) (r p g : Z) : glyph := mkGX c f r p g 0 0.
 Definition g0 : glyph := mkG 0 fl0 0 0 0.      (* the zero GlyphInfo *)
 
-Definition set_cl (g : glyph) (c : Z) : glyph := mkG c (gf g) (rest g) (cp g) (gid g).
-Definition set_gf (g : glyph) (f : fl) : glyph := mkG (cl g) f (rest g) (cp g) (gid g).
+Definition set_cl (g : glyph) (c : Z) : glyph := mkGX c (gf g) (rest g) (cp g) (gid g) (up g) (gp g).
+Definition set_gf (g : glyph) (f : fl) : glyph := mkGX (cl g) f (rest g) (cp g) (gid g) (up g) (gp g).
+Definition set_gid (g : glyph) (x : Z) : glyph := mkGX (cl g) (gf g) (rest g) (cp g) x (up g) (gp g).
+Definition set_cp (g : glyph) (x : Z) : glyph := mkGX (cl g) (gf g) (rest g) x (gid g) (up g) (gp g).
+Definition set_up (g : glyph) (x : Z) : glyph := mkGX (cl g) (gf g) (rest g) (cp g) (gid g) x (gp g).
 Definition or_flags (m : fl) (g : glyph) : glyph := set_gf g (fl_or (gf g) m).   (* info.Mask |= mask *)
 
 (* func (info *GlyphInfo) setCluster(cluster int, mask GlyphMask) *)
 Definition set_cluster (c : Z) (m : fl) (g : glyph) : glyph :=
-  if cl g =? c then g else mkG c m (rest g) (cp g) (gid g).
+  if cl g =? c then g else mkGX c m (rest g) (cp g) (gid g) (up g) (gp g).
 
 Record buffer := mkB {
   info : list glyph;       (* Info *)
@@ -95,7 +101,7 @@ Definition copy_glyph (b : buffer) : res buffer :=
 (* replaceGlyphIndex(g) *)
 Definition replace_glyph_index (b : buffer) (g : Z) : res buffer :=
   do x <- getg (info b) (idx b);
-  Ok (with_idx (with_out b (out b ++ [mkG (cl x) (gf x) (rest x) (cp x) g])) (idx b + 1)).
+  Ok (with_idx (with_out b (out b ++ [mkGX (cl x) (gf x) (rest x) (cp x) g (up x) (gp x)])) (idx b + 1)).
 
 (* ---- glyph flags ---- *)
 
@@ -328,6 +334,79 @@ Definition reverse_clusters (b : buffer) : res buffer :=
     do b2 <- reverse_range b1 start count;
     reverse b2.
 
+(* ---- AddRune / AddRunes (the buffer part; the context runes live in Model/Engine.v) ---- *)
+
+(* cap(append(Pos, n zero positions)): unchanged while the elements fit, otherwise whatever the Go runtime chose
+   (`newcap`, an input of the model; it must be at least the new length) *)
+Definition grown_cap (b : buffer) (n newcap : Z) : Z := if pos_len b + n <=? pos_cap b then pos_cap b else newcap.
+
+(* append(codepoint, cluster) = AddRune without the context reset *)
+Definition add_rune (b : buffer) (r c newcap : Z) : res buffer :=
+  Ok (with_pos (with_info b (info b ++ [mkG c fl0 0 r 0])) (pos_len b + 1) (grown_cap b 1 newcap)).
+
+(* AddRunes(text, itemOffset, itemLength): the slice expression text[itemOffset : itemOffset+itemLength] panics outside
+   0 <= itemOffset <= itemOffset+itemLength <= len(text) (cap(text) = len(text)); the cluster of a rune is its index *)
+Definition add_runes_len (text : list Z) (off len0 : Z) : Z := if len0 <? 0 then zlen text - off else len0.
+Definition add_runes (b : buffer) (text : list Z) (off len0 newcap : Z) : res buffer :=
+  let len := add_runes_len text off len0 in
+  if (0 <=? off) && (0 <=? len) && (off + len <=? zlen text) then
+    Ok (with_pos (with_info b (info b ++ map (fun i => mkG (off + i) fl0 0 (nth (Z.to_nat (off + i)) text 0) 0) (zseq len)))
+                 (pos_len b + len) (grown_cap b len newcap))
+  else Panic 1.
+
+(* ---- sort(start, end, compar): insertion sort that merges the clusters of what it moves over ---- *)
+
+(* the inner loop `for j > start && compar(&Info[j-1], &Info[i]) > 0 { j-- }`, k = j - start *)
+Fixpoint sort_find (cmp : glyph -> glyph -> Z) (inf : list glyph) (x : glyph) (s : Z) (k : nat) : Z :=
+  match k with
+  | O => s
+  | S k' => if 0 <? cmp (nth (Z.to_nat (s + Z.of_nat k')) inf g0) x then sort_find cmp inf x s k' else s + Z.of_nat k
+  end.
+
+Definition sort_step (cmp : glyph -> glyph -> Z) (s : Z) (st : res buffer) (i : Z) : res buffer :=
+  do b <- st;
+  if negb ((0 <=? s) && (i <? zlen (info b))) then Panic 1
+  else
+    let j := sort_find cmp (info b) (nth (Z.to_nat i) (info b) g0) s (Z.to_nat (i - s)) in
+    if j =? i then Ok b
+    else
+      do b' <- merge_clusters b j (i + 1);
+      let inf := info b' in
+      Ok (with_info b' (zfirstn j inf ++ [nth (Z.to_nat i) inf g0] ++ slice j i inf ++ zskipn (i + 1) inf)).
+
+Definition sort_range (cmp : glyph -> glyph -> Z) (b : buffer) (s e : Z) : res buffer :=
+  fold_left (sort_step cmp s) (map (fun k => s + 1 + k) (zseq (e - s - 1))) (Ok b).
+
+(* unicode props: general category in the low 5 bits, continuation bit, modified combining class in the high byte *)
+Definition gen_cat (g : glyph) : Z := Z.land (up g) 31.
+Definition is_umark (g : glyph) : bool := (gen_cat g =? 10) || (gen_cat g =? 11) || (gen_cat g =? 12).  (* Mc, Me, Mn *)
+Definition is_cont (g : glyph) : bool := Z.testbit (up g) 7.       (* upropsMaskContinuation *)
+Definition mcc (g : glyph) : Z := if is_umark g then Z.shiftr (up g) 8 else 0.   (* getModifiedCombiningClass *)
+(* compareCombiningClass *)
+Definition cmp_ccc (a b : glyph) : Z := if mcc a <? mcc b then -1 else if mcc a =? mcc b then 0 else 1.
+
+(* ---- reverseGroups(groupFunc, mergeClusters) ---- *)
+
+Definition rgg_step (grp : glyph -> glyph -> bool) (merge : bool) (st : res (buffer * Z)) (i : Z) : res (buffer * Z) :=
+  do st' <- st;
+  let '(b, start) := st' in
+  if grp (nth (Z.to_nat (i - 1)) (info b) g0) (nth (Z.to_nat i) (info b) g0) then Ok (b, start)
+  else
+    do b1 <- (if merge then merge_clusters b start i else Ok b);
+    do b2 <- reverse_range b1 start i; Ok (b2, i).
+Definition reverse_groups (grp : glyph -> glyph -> bool) (merge : bool) (b : buffer) : res buffer :=
+  let count := zlen (info b) in
+  if count =? 0 then Ok b
+  else
+    do st <- fold_left (rgg_step grp merge) (map (fun i => i + 1) (zseq (count - 1))) (Ok (b, 0));
+    let '(b1, start) := st in
+    do b1' <- (if merge then merge_clusters b1 start count else Ok b1);
+    do b2 <- reverse_range b1' start count;
+    reverse b2.
+(* reverseGraphemes (ot_layout.go): groups = a glyph and the continuation glyphs after it *)
+Definition reverse_graphemes (merge : bool) (b : buffer) : res buffer :=
+  reverse_groups (fun _ g2 => is_cont g2) merge b.
+
 (* ---- replaceGlyphs and friends ---- *)
 
 Definition olen (o : option (list Z)) : Z := match o with Some l => zlen l | None => 0 end.
@@ -342,7 +421,7 @@ Definition replace_glyphs (b : buffer) (numIn : Z) (cps gids : option (list Z)) 
   if (match cps with Some l => zlen l <? L | None => false end)
      || (match gids with Some l => zlen l <? L | None => false end) then Panic 1
   else
-    let new := map (fun i => mkG (cl orig) (gf orig) (rest orig) (oget cps (cp orig) i) (oget gids (gid orig) i))
+    let new := map (fun i => mkGX (cl orig) (gf orig) (rest orig) (oget cps (cp orig) i) (oget gids (gid orig) i) (up orig) (gp orig))
                    (seq 0 (Z.to_nat L)) in
     Ok (with_idx (with_out b1 (out b1 ++ new)) (idx b1 + numIn)).
 
@@ -377,7 +456,7 @@ Fixpoint pf_loop (fuel : nat) (flip clear : bool) (l : list glyph) : res (list g
       let '(a, z) := span_eq (cl g) r in
       let m := cluster_mask flip clear (g :: a) in
       do z' <- pf_loop f flip clear z;
-      Ok (map (fun x => mkG (cl x) m 0 (cp x) (gid x)) (g :: a) ++ z')
+      Ok (map (fun x => mkGX (cl x) m 0 (cp x) (gid x) (up x) (gp x)) (g :: a) ++ z')
     end
   end.
 
@@ -396,7 +475,9 @@ Inductive op :=
 | OSetFlags (m : fl) (s e : Z) (interior from_out : bool)
 | OUnsafeBreak (s e : Z) | OUnsafeConcat (s e : Z) | OTatweel (s e : Z)
 | OUnsafeBreakOut (s e : Z) | OUnsafeConcatOut (s e : Z)
-| OPropagate.
+| OPropagate
+| OAddRune (r c newcap : Z) | OAddRunes (text : list Z) (off len newcap : Z)
+| OSort (s e : Z) | ORevGraphemes (merge : bool).
 
 Definition run_op (o : op) (b : buffer) : res buffer :=
   match o with
@@ -426,6 +507,10 @@ Definition run_op (o : op) (b : buffer) : res buffer :=
   | OUnsafeBreakOut s e => unsafe_to_break_from_outbuffer b s e
   | OUnsafeConcatOut s e => unsafe_to_concat_from_outbuffer b s e
   | OPropagate => propagate_flags b
+  | OAddRune r c k => add_rune b r c k
+  | OAddRunes t off len k => add_runes b t off len k
+  | OSort s e => sort_range cmp_ccc b s e
+  | ORevGraphemes m => reverse_graphemes m b
   end.
 
 (* a whole operation sequence *)
